@@ -264,12 +264,13 @@ Definition generated (ops : list op) : list out_row :=
   flat_map (fun o => match o with OpGen key e => [mkOut key e] | _ => [] end) ops.
 
 (* the eons and keyper sets a history makes known (first insertion wins, as in the tables) *)
-Definition tables_of (ops : list op) : db :=
-  fold_left (fun d o => match o with
-                        | OpCfg kci ks => fst (insert_cfg d kci ks)
-                        | OpEon e act kci => fst (insert_eon d e act kci)
-                        | _ => d
-                        end) ops empty_db.
+Definition learn (d : db) (o : op) : db :=
+  match o with
+  | OpCfg kci ks => fst (insert_cfg d kci ks)
+  | OpEon e act kci => fst (insert_eon d e act kci)
+  | _ => d
+  end.
+Definition tables_of (ops : list op) : db := fold_left learn ops empty_db.
 
 (* the multiset the property speaks about: one entry per successful key generation of a set
    the keyper belongs to, with the four fields it has to be published with *)
@@ -317,10 +318,20 @@ Definition wf_op (h : hcfg) (d : db) (o : op) : Prop :=
   | _ => True
   end.
 
-Fixpoint wf_from (loopf : loop_fn) (h : hcfg) (d : db) (ops : list op) : Prop :=
+(* the database after an operation (it does not depend on what the loop does with the rows) *)
+Definition db_after (d : db) (o : op) : db :=
+  match o with
+  | OpCfg kci ks => fst (insert_cfg d kci ks)
+  | OpEon e act kci => fst (insert_eon d e act kci)
+  | OpGen key e => fst (insert_outgoing d key e)
+  | OpTick enum _ => fst (get_and_delete d enum)
+  | OpTickFails => d
+  end.
+
+Fixpoint wf_from (h : hcfg) (d : db) (ops : list op) : Prop :=
   match ops with
   | [] => True
-  | o :: r => wf_op h d o /\ wf_from loopf h (fst (step_gen loopf h d o)) r
+  | o :: r => wf_op h d o /\ wf_from h (db_after d o) r
   end.
 
 (* the mechanism accepts everything it is handed *)
